@@ -22,6 +22,10 @@ func init() {
 		Technique: "receiver provenance of datastore writes, must-precede/ordering on the flush, dominance facts on the retry loop and on init, sibling agreement of the two queue receive sites",
 		Trusted:   "go/types+go/ssa; go-datastore Batch contract",
 		Run:       runC06,
+		Imports: []Import{
+			{From: "C14.d", As: "C06.f", Why: "(effect inventory: every removal of header data outside the per-height deletion step is a violation `removal-outside-step`) an appended header that was not flushed yet exists only in the pending batch: it may leave the batch only in the deletion step of its own height; a range-wide drop loses headers that were never deleted at the next Stop/Start"},
+			{From: "C08.b", Match: "tier-purged:pending", As: "C06.f", Why: "see removal-outside-step: the pending batch is purged per deleted height, by the step that deleted it"},
+		},
 	})
 }
 
@@ -42,6 +46,7 @@ func runC06(c *an.Ctx) {
 	if !ok {
 		return
 	}
+	checkDeleteCrashOrder(c, "C06.e")
 
 	// --- C06.a one atomic batch per flush
 	{
